@@ -7,6 +7,7 @@
 -/
 import MW.Lemmas.PersistFault
 import MW.Lemmas.PersistCrash
+import MW.Lemmas.LedgerConnect
 namespace MW.Props.C18
 open MW MW.Model.Ledger MW.Model.Persist MW.Spec.Persist MW.Lemmas.PersistOp MW.Lemmas.PersistFault MW.Lemmas.PersistCrash
 
@@ -60,25 +61,19 @@ theorem fault_restores_coh_newAddr (env : Env) (nA nB nC : Nat) (stk : Bool) (j 
   have := newAddr_fault_coh env nA nB nC stk j P V hc.1 h
   exact ⟨this.1, this.2.1, bestInv_of_led P V _ this.2.2.1 hc.2⟩
 
-/-- RemoveWallet (marking), removal step 1, a fast-forward step of Start: exact -/
+/-- RemoveWallet (marking): exact -/
 theorem fault_restores_coh_removeMark (env : Env) (n : Nat) (w : Wid) (j : Nat) (P : PStore) (V : PVol)
     (hc : Coh env P V) (h : ((opRemoveMark n w).run (some j) P V).ok = false) :
     ((opRemoveMark n w).run (some j) P V).P = P ∧ Coh env P ((opRemoveMark n w).run (some j) P V).V := by
   have := removeMark_fail_exact n w (some j) P V h
   exact ⟨this.1, by rw [this.2]; exact hc⟩
 
-theorem fault_restores_coh_remove1 (env : Env) (n : Nat) (w : Wid) (j : Nat) (P : PStore) (V : PVol)
-    (hc : Coh env P V) (h : ((opRemove1 n w).run (some j) P V).ok = false) :
-    ((opRemove1 n w).run (some j) P V).P = P ∧ Coh env P ((opRemove1 n w).run (some j) P V).V := by
-  have := remove1_fail_exact n w (some j) P V h
-  exact ⟨this.1, by rw [this.2]; exact hc⟩
-
-/-- final removal step: DeleteKeystore drops the cache entry inside the transaction; after the failed
+/-- the final removal transaction (wallet indexes, status, keystore): DeleteKeystore drops the cache entry inside the transaction; after the failed
     commit UpdateManagedKeystores reloads it from the store -/
-theorem fault_restores_coh_removeFinal (env : Env) (nA nB : Nat) (w : Wid) (j : Nat) (P : PStore) (V : PVol)
-    (hc : Coh env P V) (h : ((opRemoveFinal nA nB w).run (some j) P V).ok = false) :
-    ((opRemoveFinal nA nB w).run (some j) P V).P = P ∧ Coh env P ((opRemoveFinal nA nB w).run (some j) P V).V := by
-  have := removeFinal_fault_coh env nA nB w j P V hc.1 h
+theorem fault_restores_coh_removeFinal (env : Env) (nI nA nB : Nat) (w : Wid) (j : Nat) (P : PStore) (V : PVol)
+    (hc : Coh env P V) (h : ((opRemoveFinal nI nA nB w).run (some j) P V).ok = false) :
+    ((opRemoveFinal nI nA nB w).run (some j) P V).P = P ∧ Coh env P ((opRemoveFinal nI nA nB w).run (some j) P V).V := by
+  have := removeFinal_fault_coh env nI nA nB w j P V hc.1 h
   exact ⟨this.1, this.2.1, bestInv_of_led P V _ this.2.2 hc.2⟩
 
 -- ------------------------------------------------------------------ every repetition of the fault
@@ -96,10 +91,10 @@ theorem faults_restore_coh_newAddr (env : Env) (nA nB nC : Nat) (stk : Bool) (P 
     Coh env P (attempts (opNewAddr env nA nB nC stk) js P V) :=
   faults_restore_coh env _ P (fun j V hc h => (fault_restores_coh_newAddr env nA nB nC stk j P V hc h).2) js V hc hf
 
-theorem faults_restore_coh_removeFinal (env : Env) (nA nB : Nat) (w : Wid) (P : PStore)
-    (js : List Nat) (V : PVol) (hc : Coh env P V) (hf : allFail (opRemoveFinal nA nB w) js P V = true) :
-    Coh env P (attempts (opRemoveFinal nA nB w) js P V) :=
-  faults_restore_coh env _ P (fun j V hc h => (fault_restores_coh_removeFinal env nA nB w j P V hc h).2) js V hc hf
+theorem faults_restore_coh_removeFinal (env : Env) (nI nA nB : Nat) (w : Wid) (P : PStore)
+    (js : List Nat) (V : PVol) (hc : Coh env P V) (hf : allFail (opRemoveFinal nI nA nB w) js P V = true) :
+    Coh env P (attempts (opRemoveFinal nI nA nB w) js P V) :=
+  faults_restore_coh env _ P (fun j V hc h => (fault_restores_coh_removeFinal env nI nA nB w j P V hc h).2) js V hc hf
 
 -- ------------------------------------------------------------------ retry_equiv
 
@@ -174,6 +169,31 @@ theorem retry_equiv_follower_partial (env : Env) (n : Nat) (b b2 xb : Block) (P 
     (opBlock env n b2).run none P V =
       (opBlock env n b2).run none ((opBlock env n b).run none P V).P ((opBlock env n b).run none P V).V :=
   follower_retry env n b b2 xb P V hb hx hp hne hh2 hh1 hhx hready hok hok2
+
+/-- retry_equiv for the follower's own retry WITHOUT the `hready` hypothesis, for a store that holds the
+    books of the chain below `b` (C01's `Inv`, every address owner ready): the status frame
+    `s'.status = s.status` of `connect_sound` (MW.Lemmas.Ledger) discharges it. -/
+theorem retry_equiv_follower (env : Env) (n : Nat) (b b2 xb : Block) (P : PStore) (V : PVol)
+    (chain rest : List Block)
+    (hI : Lemmas.Ledger.Inv (ctxOf env V) P.led chain) (hnode : env.node.chain = chain ++ b :: rest)
+    (hvalid : Lemmas.Ledger.ChainValid (ctxOf env V).own env.node.chain) (hheight : b.height = chain.length)
+    (hAR : Lemmas.Ledger.AllReady (ctxOf env V).own (readyWallets P.led (ctxOf env V).wallets))
+    (hne : (readyWallets P.led (ctxOf env V).wallets).isEmpty = false)
+    (hb : env.node.fetchBlock b2.prev = some b) (hx : env.node.fetchBlock b.prev = some xb)
+    (hp : b.prev = V.led.best.hash) (hneq : b.id ≠ V.led.best.hash)
+    (hh2 : b2.height = V.led.best.height + 2) (hh1 : b.height = V.led.best.height + 1)
+    (hhx : xb.height = V.led.best.height)
+    (hok : ((opBlock env n b).run none P V).ok = true)
+    (hok2 : ((opBlock env n b2).run none ((opBlock env n b).run none P V).P ((opBlock env n b).run none P V).V).ok = true) :
+    (opBlock env n b2).run none P V =
+      (opBlock env n b2).run none ((opBlock env n b).run none P V).P ((opBlock env n b).run none P V).V := by
+  refine follower_retry env n b b2 xb P V hb hx hp hneq hh2 hh1 hhx ?_ hok hok2
+  intro s1 c1 hf
+  obtain ⟨s', conf, h1, _, hst⟩ :=
+    Lemmas.Ledger.connect_sound (c := ctxOf env V) hI hnode hvalid hheight hAR hne
+  rw [hf] at h1
+  cases h1
+  exact Lemmas.Ledger.readyWallets_congr hst _
 
 /-- no skipped or duplicated address index: NewAddress keeps every wallet's indexes 0 … next−1 -/
 theorem newAddr_no_skipped_or_duplicated_index (env : Env) (nA nB nC : Nat) (stk : Bool) (P : PStore) (V : PVol)
